@@ -9,3 +9,4 @@ pub mod stubs;
 pub mod c12;
 pub mod c13;
 pub mod c10;
+pub mod c19;
